@@ -242,7 +242,13 @@ fn far_ties(n: usize, t_ns: u64, count: u64) -> Result<u64, String> {
                 id += 1;
             }
             let i0 = id - 5;
-            for (eid, et) in [(i0 + 1, b), (i0, b + 1), (i0 + 2, b + 1), (i0 + 4, b + 1), (i0 + 3, b + t / 2)] {
+            for (eid, et) in [(i0 + 1, b), (i0, b + 1), (i0 + 2, b + 1), (i0 + 4, b + 1), (i0 + 5, b + 1), (i0 + 3, b + t / 2)] {
+                if eid == i0 {
+                    // the event on the boundary has been fetched (the clock is at b): one more for
+                    // b+1ns now - a future instant, so it queues behind the older ones
+                    q.add(dur(b + 1), id);
+                    id += 1;
+                }
                 if q.is_empty() {
                     return Err(format!("(n={n}, t={t_ns}ns) boundary {k}: queue empty although event {eid} is pending"));
                 }
@@ -267,7 +273,7 @@ impl Property for C03 {
     fn rule(&self, tier: Tier) -> String {
         format!(
             "queue layer: the C01 explicit-state BFS with the tie oracle (fetch_next must return exactly the head of the reference list ordered by (time, scheduled-for-current-instant first, scheduling order)) on (n,t,depth) = {:?} (drain after every history; 3 configurations also to depth 5 / 6 without merging states), plus long bursts for one instant (k in {{1,2,63,64,65,66,129,200}} events scheduled for the current instant, before the first dispatch or behind an older event of that instant, with follow-ups scheduled while the burst drains) on 4 parameterisations; \
-             queue layer, far from zero: on 4 configurations with bucket widths 0.1 s to 99.9 s one queue each walks over 2000 (thorough 40000) consecutive bucket boundaries beyond 2^24 s of simulated time with a three-way tie 1 ns after each boundary, scheduled around an event exactly on it and one half a bucket later; \
+             queue layer, far from zero: on 4 configurations with bucket widths 0.1 s to 99.9 s one queue each walks over 2000 (thorough 40000) consecutive bucket boundaries beyond 2^24 s of simulated time with a three-way tie 1 ns after each boundary, scheduled around an event exactly on it and one half a bucket later, plus a fourth event for that instant scheduled once the clock stands on the boundary; \
             runtime layer: every event program of 1..={} events with delays from {:?} x start in {{0,5}}, each run on 5 queue parameterisations (logs must equal the rule and each other) and with 1 and 4 unrelated future events; \
              net layer: every sequence of 1..={} actions from {{send over two channel-less chains, send over a latency channel, send over a channel-less / a latency chain that leads back to the sender (so that sent and self-scheduled messages meet at one receiver in one instant), schedule_in(0), schedule_in(d)}} emitted by one handler, on 4 queue parameterisations, plus long bursts (16..70 events, thorough up to 300) of every periodic pattern of period 1..3 over six actions (three self-schedule delays, direct and latency sends); \
              distinct_nontrivial = distinct canonical queue states with pending events + programs/sequences containing at least one tie",
